@@ -533,7 +533,8 @@ class Mesh2D(MeshBase):
 
         # attempt to transfer the centroids and normals
         if all(msh._face_centroids is not None for msh in meshes):
-            new_mesh._face_centroids = tuple(pt for msh in meshes for pt in msh)
+            new_mesh._face_centroids = tuple(
+                pt for msh in meshes for pt in msh._face_centroids)
         if all(msh._face_areas is not None for msh in meshes):
             new_mesh._face_areas = tuple(a for msh in meshes for a in msh.face_areas)
         return new_mesh
